@@ -540,6 +540,10 @@ def run(pm, ctx):
     run_decisions(pm, ctx, 'C13-RD', OWN['C13'])
     from .. import exprdrift
     exprdrift.run(pm, ctx, 'C13-RE', OWN['C13'])
+    from ..conddrift import run_calls
+    run_calls(pm, ctx, 'C13-RC', OWN['C13'])
+    from .. import memo
+    memo.run(pm, ctx, 'C13-MK', OWN['C13'])
 
 
 def _parents(node):
